@@ -177,6 +177,12 @@ PROPS['C14'] = dict(level='model_checking',
 PROPS['C11']['harnesses'] += [SEQ('via_throw_k%d' % k, 'C11_viathrow.cpp', 'h_via_throw', exc=True, opts=dict(params=[k]), desc='via over a source completing on a foreign context with a value whose copy #%d throws' % k) for k in (0, 1, 2, 99)]
 PROPS['C05']['harnesses'] += [SEQ('seq2_' + n, 'C05_seq2.cpp', 'h_' + n, desc=n + ' over symbolic leaf outcomes') for n in ('done_as_optional', 'defer_just_from', 'let_value_with')] + \
    [SEQ('seq2_%s_%d' % (n, k), 'C05_seq2.cpp', 'h_' + n, opts=dict(params=[k], max_rec=8), desc='%s with %d injected retries/iterations; final outcome symbolic' % (n, k)) for n in ('retry_when', 'repeat_until') for k in (0, 1, 2) if not (n == 'repeat_until' and k == 0)]
+LIST_PAIRS = [(0, 2, 2, 'pop_front vs try_remove(second)'), (1, 2, 2, 'try_remove(first) vs try_remove(second)'), (0, 1, 2, 'pop_front vs try_remove(first): same node'),
+  (3, 5, 2, 'push_back vs try_remove(last)'), (4, 2, 3, 'two pop_front vs try_remove(second)'), (6, 2, 2, 'drain_into vs try_remove(second)'), (0, 0, 1, 'two pop_front on one node'),
+  (7, 1, 2, 'push_front vs try_remove(first)'), (3, 0, 1, 'push_back vs pop_front'), (6, 3, 1, 'drain_into vs push_back'), (1, 5, 3, 'try_remove(first) vs try_remove(third)'),
+  (2, 5, 3, 'try_remove(second) vs try_remove(third): adjacent'), (0, 3, 0, 'pop_front vs push_back on an empty list')]
+LIST_QUICK = {(0, 2, 2), (0, 1, 2), (0, 0, 1), (7, 1, 2), (3, 0, 1), (0, 3, 0)}
+PROPS['C15']['harnesses'] += [H('list_%d_%d_n%d' % (a, b, n), 'C15_list.cpp', ['h_t0', 'h_t1'], 36, tier=('quick' if (a, b, n) in LIST_QUICK else 'thorough'), timeout=(3000 if (a, b, n) == (4, 2, 3) else 1500), opts=dict(params=[a, b, n], prune=0, max_visits=40, feas_seq=1, feas_at=3), desc='atomic_intrusive_list (v2 mutex waiter queue), %d initial nodes: %s' % (n, d)) for a, b, n, d in LIST_PAIRS]
 # cross-registration: harnesses whose assertions also decide clauses of other properties
 PROPS['C04']['harnesses'] += [h for h in PROPS['C01']['harnesses'] if h['name'] in ('wa_race_min', 'sw_race_min')]
 PROPS['C05']['harnesses'] += [h for h in PROPS['C04']['harnesses'] if h['name'] == 'wa_inline_cancel'] + \
